@@ -124,6 +124,15 @@ Definition law_length (a b : tval) (cab : option comparison) : list N :=
   else [].
 
 Definition flag (ok : bool) : list N := if ok then [] else [2].
+
+(* A violation of eq -> same hash, or of transitivity, in which a function object occurs inside
+   one of the values (a table keyed by a function object: the entry is counted by len() and
+   skipped by iter(), see C19_fn_key_eq_hash_refuted).  Not an exception of the property text
+   and not a finding listed in DESIGN.md, hence reported as 2; if the maintainer records it as
+   a known finding, this is the one place to give it its own code. *)
+Definition code_fn_inside : N := 2.
+Definition flag_fn (has_fn ok : bool) : list N :=
+  if ok then [] else if has_fn then [code_fn_inside] else [2].
 Definition implb' (p q : bool) : bool := if p then q else true.
 
 Definition check1 (c : c19case) : list N :=
@@ -141,8 +150,9 @@ Definition check1 (c : c19case) : list N :=
       (* symmetry *)
       flag (Bool.eqb eab eba) ++
       (* equal values hash equally; exceptions of the text: NaN, signed zero *)
-      flag (implb' (eab && no_nan a && no_nan b && no_zero_real a && no_zero_real b)
-                   (o_hash oa =? o_hash ob)) ++
+      flag_fn (negb (no_fn a && no_fn b))
+              (implb' (eab && no_nan a && no_nan b && no_zero_real a && no_zero_real b)
+                      (o_hash oa =? o_hash ob)) ++
       (* equal values are neither less nor greater *)
       flag (implb' eab (not_ltgt cab && not_ltgt cba)) ++
       (* asymmetry *)
@@ -161,7 +171,8 @@ Definition check1 (c : c19case) : list N :=
           ocmp_eqb (tcmp a b) cab && ocmp_eqb (tcmp b c) cbc && ocmp_eqb (tcmp a c) cac
        then [] else [1]) ++
       (* transitivity; exception of the text: NaN *)
-      flag (implb' (eab && ebc && no_nan a && no_nan b && no_nan c) eac) ++
+      flag_fn (negb (no_fn a && no_fn b && no_fn c))
+              (implb' (eab && ebc && no_nan a && no_nan b && no_nan c) eac) ++
       flag (implb' (eab && ebc && eac) (not_ltgt cac))
   | CPanic _ => [2]
   end.
